@@ -301,4 +301,10 @@ theorem stuck_waiters {s : Mon} {ts : List WTh} (h : Inv s ts) (hst : Stuck sys 
     · exact ⟨op, g, Or.inr hp, hw⟩
     · omega
 
+theorem fBcI_pos {t : WTh} (h : 0 < fBcI t) : t.pc = .bcI := by
+  obtain ⟨pc, script, res⟩ := t; cases pc <;> simp [fBcI] at h ⊢
+
+theorem fBcD_pos {t : WTh} (h : 0 < fBcD t) : t.pc = .bcD := by
+  obtain ⟨pc, script, res⟩ := t; cases pc <;> simp [fBcD] at h ⊢
+
 end Hive.SyncMutex.Wait
